@@ -384,7 +384,7 @@ def run_case(case):
                                                for dd in range(nd))]
                          for j in range(ci.shape[0])], axis=-1).reshape(ref.shape)
         checks += 1
-        if nrm(samp - ref) > (1e-9 if not single else 1e-4) * max(nrm(ref), 1e-300) + 1e-12:
+        if nrm(samp - ref) > (1e-9 if not single else 1e-4) * max(nrm(ref), nrm(x0), 1e-300):
             return inconclusive("oracle self-check failed: NDFT at integer coordinates "
                                 "differs from DFT samples")
     return held(sig, obs, checks)
